@@ -63,6 +63,8 @@ inline std::string run_case(const h::Case& c)
     st.evaluations++;
     for (auto& t : ctx.cls)
         st.classes[t]++;
+    for (auto& kv : ctx.adds)
+        st.classes[kv.first] += kv.second;
     if (ctx.nontrivial)
     {
         st.nontrivial_total++;
